@@ -102,6 +102,10 @@ def gen_pts(rng, dim):
         w = [rng.choice([2.0, 0.5, 7.0])] * n
     else:
         w = [rng.uniform(0.1, 3.0) for _ in range(n)]
+    if w is not None:
+        # the decomposition does not depend on the unit of the weights: very small and very large weights included
+        m = rng.choice([1e-18, 1e-9, 1.0, 1.0, 1.0, 1e9, 1e18])
+        w = [x * m for x in w]
     return pts, w, cls
 
 
@@ -288,7 +292,8 @@ def oracle(c, r):
         if any(sv[i] < sv[i + 1] - 1e-12 * max(sv[0], 1e-300) for i in range(dim - 1)):
             yield ("svd-order", what + ": singular values %r not non-increasing" % (sv,))
         # sv_k^2 = sum of squared projections of the (weighted) centred vectors on axis k, i.e. n * variance along it
-        vecs = [[(p[j] - r["center"][j]) * wi for j in range(dim)] for p, wi in zip(pts, ww)]
+        mw = sum(ww) / n          # weights are relative: uniform weights mean no weights, whatever their unit
+        vecs = [[(p[j] - r["center"][j]) * (wi / mw) for j in range(dim)] for p, wi in zip(pts, ww)]
         proj = [sum(sum(v[j] * basis[i][j] for j in range(dim)) ** 2 for v in vecs) for i in range(dim)]
         top = max(max(proj), 1e-300)
         for i in range(dim):
